@@ -13,6 +13,13 @@
   * `C16_insertOneEdge_inv`      one iteration of the loop keeps: well-formedness, dart count, flags, "tags are Left / Right /
                                  absent", `PairInv`, and "the darts not yet handed out are live, free and untagged"
   * `C16_insert_edges_inv`       … hence the whole `insert_edges_in_map`, from a well-formed map without tags
+  * `C16_insertOneEdge_shape`    the SHAPE of one inserted edge `e` with block `next, next+1, next+2, …`: the β1 chain
+                                 `e.start → next → next+2 → … → next+1+k → e.stop` (from the dart of the start crossing to the
+                                 dart of the end crossing), `next` 2-linked; the `j`-th point of interest is the coordinate of
+                                 the vertex of the `j`-th intermediate dart — every retained point of interest of the edge is a
+                                 vertex, in the order of the geometry — and with the anchor storages (capture, C17) that vertex
+                                 is anchored `Node(i)`, `i` the index of the edge; every dart of the chain (the side running
+                                 WITH the geometry) is tagged `Left`, its β2 image `Right`
   * `C16_pipeline_clip_hyps`     so the hypotheses `htags` / `hpair` of `C16_clip_WF` hold for the output of step 5, for
                                  `clip_left` AND `clip_right`: they are established for pipeline outputs, not assumed
   * `C16_pipeline_clip_WF`       composition: `clip_left` / `clip_right` after step 5 return a well-formed map whose remaining
@@ -713,6 +720,572 @@ theorem C16_pipeline_clip_WF {m m1 m' : Map Val} {ha hb : Bool} {edges : List ME
       · exact Or.inr (Or.inr (Or.inr h))
       · exact Or.inr (Or.inr (Or.inl h))
 
+/-! ## orientation: `Left` on the new edge in the direction of the geometry, `Right` on the other side -/
+
+theorem b1chain_congr {m m1 : Map Val} (hb : m1.b = m.b) : ∀ (l : List Nat) (d : Nat), B1Chain m d l → B1Chain m1 d l := by
+  intro l
+  induction l with
+  | nil => intro _ _; trivial
+  | cons x rest ih =>
+      intro d h
+      exact ⟨by have : m1.β 1 d = m.β 1 d := by unfold Map.β; rw [hb]
+                rw [this]; exact h.1, ih x h.2⟩
+
+/-- `mark_boundary` along a known β1 chain `d → l … → stop` whose darts are 2-linked and are nobody's β2 image inside
+    the chain: every dart of the chain ends `Left`, its β2 image `Right`, and nothing else changes its tag -/
+theorem markBoundary_chain (stop : Nat) : ∀ (l : List Nat) (d : Nat) (m m' : Map Val) (fuel : Nat), WF 3 m →
+    B1Chain m d l → m.β 1 (l.getLastD d) = stop → stop ∉ d :: l → (d :: l).Nodup →
+    (∀ x, x ∈ d :: l → x < m.n ∧ m.β 2 x ≠ 0) →
+    (∀ x, x ∈ d :: l → ∀ y, y ∈ d :: l → m.β 2 y ≠ x) →
+    run (markBoundary stop fuel d) m = (.ok (), m') →
+    m'.b = m.b ∧
+    (∀ x, x ∈ d :: l → tagOf m' x = some bdLeft ∧ tagOf m' (m.β 2 x) = some bdRight) ∧
+    (∀ z, z ∉ d :: l → (∀ y, y ∈ d :: l → m.β 2 y ≠ z) → tagOf m' z = tagOf m z) := by
+  intro l
+  induction l with
+  | nil =>
+      intro d m m' fuel hwf _ hlast hstop _ hlt hdis h
+      simp only [List.getLastD_nil] at hlast
+      cases fuel with
+      | zero => simp [markBoundary, run] at h
+      | succ f =>
+          unfold markBoundary at h
+          have hds : d ≠ stop := fun e => hstop (by rw [e]; exact List.mem_cons_self)
+          rw [if_neg hds] at h
+          simp only [Prog.bind_eq] at h
+          have h := C14.rA_bind_ok h
+          rw [run_wA] at h
+          by_cases ok1 : m.okA sBd d = true
+          · simp only [ok1, if_true] at h
+            obtain ⟨_, h⟩ := C14.rB_bind_ok h
+            have h := C14.rA_bind_ok h
+            rw [run_wA] at h
+            simp only [Map.β_setA] at h
+            by_cases ok2 : (m.setA sBd d (some bdLeft)).okA sBd (m.β 2 d) = true
+            · simp only [ok2, if_true] at h
+              obtain ⟨_, h⟩ := C14.rB_bind_ok h
+              simp only [Map.β_setA, hlast] at h
+              -- the walk stops
+              have hm' : m' = (m.setA sBd d (some bdLeft)).setA sBd (m.β 2 d) (some bdRight) := by
+                cases f with
+                | zero => simp [markBoundary, run] at h
+                | succ f' =>
+                    unfold markBoundary at h
+                    rw [if_pos rfl] at h
+                    simp only [Prog.pure_eq, run_ret, Prod.mk.injEq] at h
+                    exact h.2.symm
+              have tag1 : ∀ y, tagOf m' y = if m.β 2 d = y then some bdRight else if d = y then some bdLeft else tagOf m y := by
+                intro y
+                show m'.att sBd y = _
+                rw [hm', Map.att_setA, Map.att_setA]
+                simp only [ok1, ok2, true_and, and_true]
+              have hne : m.β 2 d ≠ d := hdis d List.mem_cons_self d List.mem_cons_self
+              refine ⟨by rw [hm']; rfl, ?_, ?_⟩
+              · intro x hx
+                have : x = d := by simpa using hx
+                subst this
+                exact ⟨by rw [tag1, if_neg hne, if_pos rfl], by rw [tag1, if_pos rfl]⟩
+              · intro z hz hz2
+                rw [tag1, if_neg (hz2 d List.mem_cons_self), if_neg (fun e => hz (by rw [← e]; exact List.mem_cons_self))]
+            · simp [ok2] at h
+          · simp [ok1] at h
+  | cons x rest ih =>
+      intro d m m' fuel hwf hch hlast hstop hnd hlt hdis h
+      obtain ⟨hb1, hch'⟩ := hch
+      cases fuel with
+      | zero => simp [markBoundary, run] at h
+      | succ f =>
+          unfold markBoundary at h
+          have hds : d ≠ stop := fun e => hstop (by rw [e]; exact List.mem_cons_self)
+          rw [if_neg hds] at h
+          simp only [Prog.bind_eq] at h
+          have h := C14.rA_bind_ok h
+          rw [run_wA] at h
+          by_cases ok1 : m.okA sBd d = true
+          · simp only [ok1, if_true] at h
+            obtain ⟨_, h⟩ := C14.rB_bind_ok h
+            have h := C14.rA_bind_ok h
+            rw [run_wA] at h
+            simp only [Map.β_setA] at h
+            by_cases ok2 : (m.setA sBd d (some bdLeft)).okA sBd (m.β 2 d) = true
+            · simp only [ok2, if_true] at h
+              obtain ⟨_, h⟩ := C14.rB_bind_ok h
+              simp only [Map.β_setA, hb1] at h
+              set m1 := (m.setA sBd d (some bdLeft)).setA sBd (m.β 2 d) (some bdRight) with hm1
+              have hb : m1.b = m.b := rfl
+              have hβ : ∀ a b, m1.β a b = m.β a b := fun _ _ => rfl
+              have tag1 : ∀ y, tagOf m1 y = if m.β 2 d = y then some bdRight else if d = y then some bdLeft else tagOf m y := by
+                intro y
+                show m1.att sBd y = _
+                rw [hm1, Map.att_setA, Map.att_setA]
+                simp only [ok1, ok2, true_and, and_true]
+              have st1 : SameTopo m m1 := (SameTopo.setA _ _ _ _).trans (SameTopo.setA _ _ _ _)
+              have hnd2 : (x :: rest).Nodup := (List.nodup_cons.1 hnd).2
+              have hnd1 : d ∉ x :: rest := (List.nodup_cons.1 hnd).1
+              have hsub : ∀ y, y ∈ x :: rest → y ∈ d :: x :: rest := fun y hy => List.mem_cons_of_mem _ hy
+              obtain ⟨i0, i1, i2⟩ := ih x m1 m' f (hwf.sameTopo st1) (b1chain_congr hb rest x hch')
+                (by rw [hβ, ← hlast, List.getLastD_cons])
+                (fun hh => hstop (hsub _ hh)) hnd2
+                (fun y hy => by rw [hβ]; exact hlt y (hsub y hy))
+                (fun a ha b hb' => by rw [hβ]; exact hdis a (hsub a ha) b (hsub b hb')) h
+              simp only [hβ] at i1 i2
+              have hdd : d ∈ d :: x :: rest := List.mem_cons_self
+              have hne : m.β 2 d ≠ d := hdis d hdd d hdd
+              refine ⟨i0.trans hb, ?_, ?_⟩
+              · intro y hy
+                rcases List.mem_cons.1 hy with rfl | hy
+                · -- the first dart: written now, not overwritten later
+                  have h1 := i2 y hnd1 (fun b hb' => hdis y hdd b (hsub b hb'))
+                  have h2 : tagOf m' (m.β 2 y) = tagOf m1 (m.β 2 y) := by
+                    apply i2
+                    · intro hh; exact hdis _ (hsub _ hh) y hdd rfl
+                    · intro b hb' e
+                      -- β2 is injective on 2-linked darts
+                      have hb2 := hlt b (hsub b hb')
+                      have hy2 := hlt y hdd
+                      have := (hwf.invol 2 (by omega) (by omega) b hb2.1 hb2.2).1
+                      rw [e, (hwf.invol 2 (by omega) (by omega) y hy2.1 hy2.2).1] at this
+                      exact hnd1 (by rw [this]; exact hb')
+                  exact ⟨by rw [h1, tag1, if_neg hne, if_pos rfl], by rw [h2, tag1, if_pos rfl]⟩
+                · exact i1 y hy
+              · intro z hz hz2
+                have hz' : z ∉ x :: rest := fun hh => hz (hsub z hh)
+                rw [i2 z hz' (fun b hb' => hz2 b (hsub b hb')), tag1, if_neg (hz2 d hdd),
+                  if_neg (fun e => hz (by rw [← e]; exact hdd))]
+            · simp [ok2] at h
+          · simp [ok1] at h
+
+/-! ## the shape of one inserted edge: chain, points of interest, node anchors -/
+
+/-- the darts `replaceInter` walks: `d, β1 d, β1 (β1 d), …` -/
+def walkB1 (m : Map Val) : Nat → Nat → List Nat
+  | _, 0 => []
+  | d, k + 1 => d :: walkB1 m (m.β 1 d) k
+
+theorem walkB1_congr {m m1 : Map Val} (hb : m1.b = m.b) : ∀ (k d : Nat), walkB1 m1 d k = walkB1 m d k := by
+  intro k
+  induction k with
+  | zero => intro d; rfl
+  | succ k ih =>
+      intro d
+      have : m1.β 1 d = m.β 1 d := by unfold Map.β; rw [hb]
+      simp only [walkB1, this, ih]
+
+/-- the loop that replaces the placeholder vertices: the `j`-th point goes to the slot of the vertex identifier of the
+    `j`-th dart walked (and, with anchors, `Node(i)` to the same slot of the anchor storage); nothing else is written -/
+theorem replaceInter_att (n : Nat) (ha : Bool) (i : Nat) : ∀ (l : List Pt) (d : Nat) (m m' : Map Val),
+    run (replaceInter n ha i d l) m = (.ok (), m') →
+    ((walkB1 m d l.length).map (fun x => (run (vertexId2 n x) m).1)).Nodup →
+      m'.b = m.b ∧
+      (∀ x ∈ (walkB1 m d l.length).zip l, ∀ vid, (run (vertexId2 n x.1) m).1 = .ok vid →
+        m'.att 0 vid = some (.pt x.2.1 x.2.2 0) ∧ (ha = true → m'.att sVA vid = some (.tm (.leaf (4 * i))))) ∧
+      (∀ s y, ((s ≠ 0 ∧ s ≠ sVA) ∨ ∀ x ∈ walkB1 m d l.length, (run (vertexId2 n x) m).1 ≠ .ok y) →
+        m'.att s y = m.att s y) := by
+  intro l
+  induction l with
+  | nil =>
+      intro d m m' h _
+      simp only [replaceInter, Prog.pure_eq, run_ret, Prod.mk.injEq] at h
+      rw [← h.2]
+      exact ⟨rfl, by simp [walkB1], fun _ _ _ => rfl⟩
+  | cons v vs ih =>
+      intro d m m' h hnd
+      unfold replaceInter at h
+      simp only [Prog.bind_eq] at h
+      obtain ⟨vid0, hv0, h⟩ := ro_bind_ok (readOnly_vertexId2 (X := Val) n d) h
+      unfold writeVtx at h
+      simp only [Prog.bind_eq, Prog.pure_eq, Prog.bind_assoc] at h
+      have h := C14.rA_bind_ok h
+      rw [run_wA] at h
+      have hv0' : (run (vertexId2 n d) m).1 = .ok vid0 := by rw [hv0]
+      simp only [List.length_cons, walkB1, List.map_cons, List.nodup_cons, List.mem_map, not_exists, not_and] at hnd
+      obtain ⟨hhead, hrest⟩ := hnd
+      by_cases ok0 : m.okA 0 vid0 = true
+      · simp only [ok0, if_true] at h
+        simp only [Prog.bind_eq, Prog.ret_bind] at h
+        -- the map after the writes of this iteration
+        have key : ∀ (m1 : Map Val), m1.b = m.b → m1.att 0 vid0 = some (.pt v.1 v.2 0) →
+            (ha = true → m1.att sVA vid0 = some (.tm (.leaf (4 * i)))) →
+            (∀ s y, ((s ≠ 0 ∧ s ≠ sVA) ∨ y ≠ vid0) → m1.att s y = m.att s y) →
+            run (replaceInter n ha i (m.β 1 d) vs) m1 = (.ok (), m') →
+            m'.b = m.b ∧
+            (∀ x ∈ (d :: walkB1 m (m.β 1 d) vs.length).zip (v :: vs), ∀ vid, (run (vertexId2 n x.1) m).1 = .ok vid →
+              m'.att 0 vid = some (.pt x.2.1 x.2.2 0) ∧ (ha = true → m'.att sVA vid = some (.tm (.leaf (4 * i))))) ∧
+            (∀ s y, ((s ≠ 0 ∧ s ≠ sVA) ∨ ∀ x ∈ d :: walkB1 m (m.β 1 d) vs.length, (run (vertexId2 n x) m).1 ≠ .ok y) →
+              m'.att s y = m.att s y) := by
+          intro m1 hb1 hp1 ha1 hfr1 hrun
+          have hout : ∀ x, (run (vertexId2 n x) m1).1 = (run (vertexId2 n x) m).1 :=
+            fun x => (C14.bOnly_vertexId2 n x).2 _ _ hb1
+          have hw : walkB1 m1 (m.β 1 d) vs.length = walkB1 m (m.β 1 d) vs.length := walkB1_congr hb1 _ _
+          have hnd1 : ((walkB1 m1 (m.β 1 d) vs.length).map (fun x => (run (vertexId2 n x) m1).1)).Nodup := by
+            rw [hw]; simp only [hout]; exact hrest
+          obtain ⟨i0, i1, i2⟩ := ih _ m1 m' hrun hnd1
+          rw [hw] at i1 i2
+          simp only [hout] at i1 i2
+          refine ⟨i0.trans hb1, ?_, ?_⟩
+          · intro x hx vid hvid
+            simp only [List.zip_cons_cons, List.mem_cons] at hx
+            rcases hx with rfl | hx
+            · simp only at hvid
+              rw [hv0'] at hvid
+              simp only [Out.ok.injEq] at hvid
+              subst hvid
+              have hno : ∀ z ∈ walkB1 m (m.β 1 d) vs.length, (run (vertexId2 n z) m).1 ≠ .ok vid0 :=
+                fun z hz hh => hhead z hz (by rw [hh, hv0'])
+              refine ⟨by rw [i2 0 vid0 (Or.inr hno)]; exact hp1, fun hat => by rw [i2 sVA vid0 (Or.inr hno)]; exact ha1 hat⟩
+            · exact i1 x hx vid hvid
+          · intro s y hsy
+            have c1 : (s ≠ 0 ∧ s ≠ sVA) ∨ ∀ x ∈ walkB1 m (m.β 1 d) vs.length, (run (vertexId2 n x) m).1 ≠ .ok y := by
+              rcases hsy with hs | hd
+              · exact Or.inl hs
+              · exact Or.inr fun z hz => hd z (List.mem_cons_of_mem _ hz)
+            rw [i2 s y c1]
+            apply hfr1
+            rcases hsy with hs | hd
+            · exact Or.inl hs
+            · right; intro e; exact hd d List.mem_cons_self (by rw [e]; exact hv0')
+        cases ha with
+        | false =>
+            simp only [Bool.false_eq_true, if_false, Prog.pure_eq, Prog.ret_bind] at h
+            obtain ⟨_, h⟩ := C14.rB_bind_ok h
+            simp only [Map.β_setA] at h
+            refine key (m.setA 0 vid0 (some (Val.pt v.1 v.2 0))) rfl (by rw [Map.att_setA]; simp [ok0]) (fun hh => by cases hh) ?_ h
+            intro s y hsy
+            rw [Map.att_setA]
+            have : ¬ (0 = s ∧ vid0 = y ∧ m.okA 0 vid0 = true) := by
+              rintro ⟨rfl, rfl, _⟩
+              rcases hsy with hs | hd
+              · exact hs.1 rfl
+              · exact hd rfl
+            simp [this]
+        | true =>
+            simp only [if_true, Prog.bind_eq, Prog.bind_assoc] at h
+            have h := C14.rA_bind_ok h
+            rw [run_wA] at h
+            by_cases ok1 : (m.setA 0 vid0 (some (Val.pt v.1 v.2 0))).okA sVA vid0 = true
+            · simp only [ok1, if_true] at h
+              obtain ⟨_, h⟩ := C14.rB_bind_ok h
+              simp only [Map.β_setA] at h
+              refine key ((m.setA 0 vid0 (some (Val.pt v.1 v.2 0))).setA sVA vid0 (some (Val.tm (Term.leaf (4 * i))))) rfl ?_
+                (fun _ => by rw [Map.att_setA]; simp [ok1]) ?_ h
+              · rw [Map.att_setA, if_neg (fun hh => by have := hh.1; simp [sVA] at this), Map.att_setA]; simp [ok0]
+              · intro s y hsy
+                rw [Map.att_setA, Map.att_setA]
+                have n1 : ¬ (sVA = s ∧ vid0 = y ∧ (m.setA 0 vid0 (some (Val.pt v.1 v.2 0))).okA sVA vid0 = true) := by
+                  rintro ⟨rfl, rfl, _⟩
+                  rcases hsy with hs | hd
+                  · exact hs.2 rfl
+                  · exact hd rfl
+                have n0 : ¬ (0 = s ∧ vid0 = y ∧ m.okA 0 vid0 = true) := by
+                  rintro ⟨rfl, rfl, _⟩
+                  rcases hsy with hs | hd
+                  · exact hs.1 rfl
+                  · exact hd rfl
+                simp [n1, n0]
+            · simp [ok1] at h
+      · simp [ok0] at h
+
+theorem walk_of_chain {m : Map Val} : ∀ (l : List Nat) (d : Nat), B1Chain m d l → walkB1 m (m.β 1 d) l.length = l := by
+  intro l
+  induction l with
+  | nil => intro d _; rfl
+  | cons x rest ih =>
+      intro d h
+      obtain ⟨h1, h2⟩ := h
+      simp only [List.length_cons, walkB1, h1]
+      rw [ih x h2]
+
+theorem edgeId2_min {m m' : Map Val} {d x : Nat} (h : run (edgeId2 (X := Val) d) m = (.ok x, m')) :
+    x = if m.β 2 d = 0 then d else min (m.β 2 d) d := by
+  unfold edgeId2 at h
+  simp only [Prog.bind_eq] at h
+  obtain ⟨_, h⟩ := C14.rB_bind_ok h
+  by_cases h0 : m.β 2 d = 0
+  · rw [if_pos h0] at h ⊢; simp only [Prog.pure_eq, run_ret, Prod.mk.injEq, Out.ok.injEq] at h; exact h.1.symm
+  · rw [if_neg h0] at h ⊢; simp only [Prog.pure_eq, run_ret, Prod.mk.injEq, Out.ok.injEq] at h; exact h.1.symm
+
+/-- **C16 / C17, step 5 — the shape of one inserted edge**: after a successful iteration for the edge `e` (block of new
+    darts `next, next + 1, next + 2, …`) the new edge is the β1 chain `e.start → next → next+2 → … → next+1+k → e.stop`
+    (`k` points of interest), `next` is 2-linked, the `j`-th point of interest is the coordinate of the vertex of the
+    `j`-th intermediate dart `next + 2 + j` — the points of interest are vertices of the map, in the order of the geometry —
+    and, when the map carries the anchor storages (capture), that vertex is anchored to `Node(i)`, `i` the index of the edge -/
+theorem C16_insertOneEdge_shape {m m' : Map Val} {next i : Nat} {ha : Bool} {e : MEdge} (I : EInv m next)
+    (hs : C01.InUse m e.start) (he : C01.InUse m e.stop) (hroom : next + (2 + 2 * e.inter.length) ≤ m.n)
+    (hr : run (insertOneEdge m.n ha i e (List.range' next (2 + 2 * e.inter.length))) m = (.ok (), m')) :
+    B1Chain m' e.start (next :: List.range' (next + 2) e.inter.length) ∧
+    m'.β 1 ((List.range' (next + 2) e.inter.length).getLastD next) = e.stop ∧ m'.β 2 next ≠ 0 ∧
+    (∀ (j : Nat) (pt : Pt), e.inter[j]? = some pt → ∀ vid, (run (vertexId2 m.n (next + 2 + j)) m').1 = .ok vid →
+      m'.att 0 vid = some (.pt pt.1 pt.2 0) ∧ (ha = true → m'.att sVA vid = some (.tm (.leaf (4 * i))))) ∧
+    (∀ x, x ∈ next :: List.range' (next + 2) e.inter.length →
+      tagOf m' x = some bdLeft ∧ tagOf m' (m'.β 2 x) = some bdRight) := by
+  have hwf := I.wf
+  set k := e.inter.length with hk
+  unfold insertOneEdge at hr
+  simp only [Prog.bind_eq] at hr
+  rw [rg' (by omega : 0 < 2 + 2 * k), rg' (by omega : 1 < 2 + 2 * k), Nat.add_zero] at hr
+  obtain ⟨_, m1, h1, hrA⟩ := run_bind_ok hr
+  clear hr
+  obtain ⟨u0, f0, t0⟩ := I.fresh next (Nat.le_refl _) (by omega)
+  obtain ⟨u1, f1, t1⟩ := I.fresh (next + 1) (by omega) (by omega)
+  have id0 : C01.InUse m next := ⟨by have := I.pos; omega, by omega, u0⟩
+  have id1 : C01.InUse m (next + 1) := ⟨by omega, by omega, u1⟩
+  obtain ⟨w1, n1, uu1, a1, _, hb1s, hb0e, e1, e2, e3, e4, e5, e6, e7⟩ :=
+    C16_buildBaseEdge_spec hwf hs he id0 id1 f0 f1 (by omega) h1
+  have notFresh : ∀ d, d < m.n → (∃ j, j < 3 ∧ m.β j d ≠ 0) → d < next := by
+    intro d hd ⟨j, hj, hne⟩
+    rcases Nat.lt_or_ge d next with h' | h'
+    · exact h'
+    · exact absurd ((I.fresh d h' hd).2.1 j hj) hne
+  have hstart : e.start < next := notFresh _ hs.2.1 ⟨1, by omega, hb1s⟩
+  obtain ⟨_, m3, h3, hrB⟩ := run_bind_ok hrA
+  obtain ⟨_, hmark⟩ := C14.rB_bind_ok hrB
+  clear hrA hrB
+  -- `mark_boundary` changes no β and no coordinate / anchor
+  have mark : ∀ (hw3 : WF 3 m3) (ht3 : TagsLR m3) (hp3 : PairInv m3), m'.b = m3.b ∧ ∀ s x, s ≠ sBd → m'.att s x = m3.att s x := by
+    intro hw3 ht3 hp3
+    obtain ⟨st, hatt, _⟩ := C16_markBoundary_spec e.stop _ _ m3 m' hw3 ht3 hp3 hmark
+    exact ⟨st.b, hatt⟩
+  have M1pair : PairInv m1 := by
+    refine PairInv.of_local hwf w1 n1 (fun x => by show m1.att sBd x = m.att sBd x; rw [a1])
+      (fun d => d = next ∨ d = next + 1) ?_ ?_ I.pair
+    · intro d hd
+      rw [e5 d, if_neg (fun h => hd (Or.inl h)), if_neg (fun h => hd (Or.inr h))]
+    · rintro d (rfl | rfl)
+      · exact t0
+      · exact t1
+  have T1 : TagsLR m1 := fun x => by
+    have e : tagOf m1 x = tagOf m x := by show m1.att sBd x = m.att sBd x; rw [a1]
+    rw [e]; exact I.tags x
+  by_cases hemp : e.inter.isEmpty = true
+  · -- no point of interest
+    rw [if_pos hemp] at h3
+    simp only [Prog.pure_eq, run_ret, Prod.mk.injEq] at h3
+    have hk0 : k = 0 := by rw [hk]; simpa using hemp
+    rw [← h3.2] at hmark mark
+    obtain ⟨hb, _⟩ := mark w1 T1 M1pair
+    have hβ : ∀ a b, m'.β a b = m1.β a b := fun a b => by unfold Map.β; rw [hb]
+    rw [hk0]
+    simp only [List.range'_zero, List.getLastD_nil]
+    have hstop : e.stop < next := notFresh _ he.2.1 ⟨0, by omega, hb0e⟩
+    have b2n : m1.β 2 next = next + 1 := by rw [e5, if_pos rfl]
+    rw [e1] at hmark
+    have c1 : ∀ x, x ∈ [next] → x < m1.n ∧ m1.β 2 x ≠ 0 := by
+      intro x hx
+      have hx' : x = next := by simpa using hx
+      rw [hx', b2n, n1]; exact ⟨by omega, by omega⟩
+    have c2 : ∀ x, x ∈ [next] → ∀ y, y ∈ [next] → m1.β 2 y ≠ x := by
+      intro x hx y hy
+      have hx' : x = next := by simpa using hx
+      have hy' : y = next := by simpa using hy
+      rw [hx', hy', b2n]; omega
+    have c3 : e.stop ∉ [next] := by
+      intro hx
+      have : e.stop = next := by simpa using hx
+      omega
+    obtain ⟨_, ctag, _⟩ := markBoundary_chain e.stop [] next m1 m' _ w1 trivial (by simpa using e2)
+      c3 (by simp) c1 c2 hmark
+    refine ⟨⟨by rw [hβ]; exact e1, trivial⟩, by rw [hβ]; exact e2, by rw [hβ, e5, if_pos rfl]; omega, ?_, ?_⟩
+    · intro j pt hj
+      have : e.inter = [] := by simpa using hemp
+      rw [this] at hj; simp at hj
+    · intro x hx
+      rw [hβ]; exact ctag x hx
+  · rw [if_neg hemp] at h3
+    have hkpos : 0 < k := by
+      rw [hk]; cases hi : e.inter with
+      | nil => rw [hi] at hemp; simp at hemp
+      | cons _ _ => simp
+    obtain ⟨eid, heid, h3a⟩ := ro_bind_ok (readOnly_edgeId2 (X := Val) next) h3
+    obtain ⟨_, m2, h2, h3b⟩ := run_bind_ok h3a
+    obtain ⟨_, h3c⟩ := C14.rB_bind_ok h3b
+    clear h3 h3a h3b
+    have b2n : m1.β 2 next = next + 1 := by rw [e5, if_pos rfl]
+    have heq : eid = next := by
+      rw [edgeId2_min heid, b2n, if_neg (by omega)]; exact Nat.min_eq_right (by omega)
+    subst heq
+    have ieid : C01.InUse m1 eid := ⟨id0.1, by rw [n1]; exact id0.2.1, by unfold Map.unused; rw [uu1]; exact id0.2.2⟩
+    have hslice : (List.range' eid (2 + 2 * k)).drop 2 = List.range' (eid + 2) (2 * k) := by
+      rw [List.drop_range']; congr 1 <;> omega
+    rw [hslice, ← n1] at h2
+    have hmem : ∀ d, d ∈ List.range' (eid + 2) (2 * k) → eid + 2 ≤ d ∧ d < eid + 2 + 2 * k := by
+      intro d hd; rw [List.mem_range'_1] at hd; exact hd
+    have hlive : ∀ d, d ∈ List.range' (eid + 2) (2 * k) → m1.unused d = false := by
+      intro d hd
+      obtain ⟨a, b⟩ := hmem d hd
+      unfold Map.unused; rw [uu1]
+      exact (I.fresh d (by omega) (by omega)).1
+    have hlen : (e.inter.map fun _ => (1 / 2 : Rat)).length = k := by rw [List.length_map]
+    have hsplit : List.range' (eid + 2) (2 * k) = List.range' (eid + 2) k ++ List.range' (eid + 2 + k) k := by
+      rw [show 2 * k = k + k by omega, ← List.range'_append, Nat.one_mul]
+    have htake : (List.range' (eid + 2) (2 * k)).take (e.inter.map fun _ => (1 / 2 : Rat)).length = List.range' (eid + 2) k := by
+      rw [hlen, hsplit, List.take_left' (by rw [List.length_range'])]
+    have hdrop : (List.range' (eid + 2) (2 * k)).drop (e.inter.map fun _ => (1 / 2 : Rat)).length = List.range' (eid + 2 + k) k := by
+      rw [hlen, hsplit, List.drop_left' (by rw [List.length_range'])]
+    have hfhnd : ((List.range' (eid + 2) (2 * k)).take (e.inter.map fun _ => (1 / 2 : Rat)).length).Nodup := by
+      rw [htake]; exact List.nodup_range'
+    obtain ⟨w2, hres⟩ := C14.C14_insertVertices_beta_structure m1 m2 eid _ _ w1 ieid hlive hfhnd
+      (fun _ => List.nodup_range') h2
+    have inv2 := C14.insertVertices_inv m1 m2 eid _ _ w1 ieid hlive (fun _ => List.nodup_range') h2
+    have hdist := C14.C14_new_darts_distinct_vertices m1 m2 eid _ _ w1 ieid hlive hfhnd (fun _ => List.nodup_range') h2
+    obtain ⟨_, _, _, _, _, _, _, _, _, hatt⟩ := C14.C14_new_vertex_position_full m1 m2 eid _ _ w1 ieid hlive hfhnd
+      (fun _ => List.nodup_range') h2
+    rw [htake] at hres hdist
+    rw [hdrop] at hres
+    set fh := List.range' (eid + 2) k with hfh
+    set sh := List.range' (eid + 2 + k) k with hsh
+    obtain ⟨hch, hlast⟩ := hres.side1
+    -- the walk of `replaceInter` follows the new chain
+    have hwalk : walkB1 m2 (m2.β 1 eid) e.inter.length = fh := by
+      have := walk_of_chain fh eid hch
+      rw [hfh, List.length_range'] at this
+      rw [← hk]; exact this
+    have hnd2 : ((walkB1 m2 (m2.β 1 eid) e.inter.length).map (fun x => (run (vertexId2 m.n x) m2).1)).Nodup := by
+      rw [hwalk]
+      have hz : ((e.inter.map fun _ => (1 / 2 : Rat)).zip fh).map (fun x => (run (vertexId2 m1.n x.2) m2).1) =
+          fh.map (fun x => (run (vertexId2 m1.n x) m2).1) := by
+        have : (fun x : Rat × Nat => (run (vertexId2 m1.n x.2) m2).1) =
+            (fun x : Nat => (run (vertexId2 m1.n x) m2).1) ∘ Prod.snd := rfl
+        rw [this, ← List.map_map, List.map_snd_zip (by rw [hlen, hfh, List.length_range'])]
+      rw [hz, n1] at hdist
+      exact hdist
+    obtain ⟨hb3, hpts, _⟩ := replaceInter_att m.n ha i _ _ m2 m3 h3c hnd2
+    rw [hwalk] at hpts
+    -- tags and pairing, to run `mark_boundary`'s lemma
+    have tg2 : ∀ x, tagOf m2 x = tagOf m1 x := fun x => hatt sBd x (Or.inl (by decide))
+    have st3 := replaceInter_eff m.n ha i _ _ _ _ h3c
+    have inS : ∀ d, (d ∈ eid :: fh ∨ d ∈ m1.β 2 eid :: sh) → eid ≤ d ∧ d < eid + (2 + 2 * k) := by
+      intro d hd
+      rcases hd with hd | hd <;> rcases List.mem_cons.1 hd with h | h
+      · omega
+      · rw [hfh, List.mem_range'_1] at h; omega
+      · rw [b2n] at h; omega
+      · rw [hsh, List.mem_range'_1] at h; omega
+    have P2 : PairInv m2 := by
+      refine PairInv.of_local w1 w2 inv2.n_eq tg2 (fun d => d ∈ eid :: fh ∨ d ∈ m1.β 2 eid :: sh) ?_ ?_ M1pair
+      · intro d hd
+        exact hres.frame2 d (fun _ => ⟨fun h => hd (Or.inl h), fun h => hd (Or.inr h)⟩)
+      · intro d hd
+        obtain ⟨a, b⟩ := inS d hd
+        show m1.att sBd d = none
+        rw [a1]; exact (I.fresh d a (by omega)).2.2
+    have T3 : TagsLR m3 := by
+      intro x
+      have e : tagOf m3 x = tagOf m1 x := by
+        show m3.att sBd x = _
+        rw [st3.2 sBd x (by decide) (by decide)]; exact tg2 x
+      rw [e]; exact T1 x
+    have P3 : PairInv m3 := by
+      intro d hd0 hd hd2
+      have hβ : m3.β = m2.β := β_of_sameTopo st3.1
+      show m3.att sBd d = _ ↔ m3.att sBd (m3.β 2 d) = _
+      rw [st3.2 sBd _ (by decide) (by decide), st3.2 sBd _ (by decide) (by decide), hβ]
+      rw [hβ] at hd2
+      exact P2 d hd0 (by rw [← st3.1.n]; exact hd) hd2
+    obtain ⟨hb', hatt'⟩ := mark (w2.sameTopo st3.1) T3 P3
+    have hβ' : ∀ a b, m'.β a b = m2.β a b := fun a b => by unfold Map.β; rw [hb', hb3]
+    have hstart_out : e.start ∉ eid :: fh := by
+      intro h
+      rcases List.mem_cons.1 h with h | h
+      · omega
+      · rw [hfh, List.mem_range'_1] at h; omega
+    have hstart_out2 : e.start ∉ m1.β 2 eid :: sh := by
+      intro h
+      rcases List.mem_cons.1 h with h | h
+      · rw [b2n] at h; omega
+      · rw [hsh, List.mem_range'_1] at h; omega
+    -- the β2 image of every dart of the new chain lies on the other side: `eid + 1` or a dart of the second half
+    have hstop : e.stop < eid := notFresh _ he.2.1 ⟨0, by omega, hb0e⟩
+    obtain ⟨hpz, _, hp2⟩ := hres.pairs (by rw [b2n]; omega)
+    have hb2e : m2.β 2 eid = eid + 2 + k + (k - 1) := by
+      rw [hp2]
+      have hl := C14.getLastD_index sh (m1.β 2 eid)
+      rw [hl, hsh, List.length_range']
+      have : k = (k - 1) + 1 := by omega
+      rw [this, List.getD_cons_succ, rg' (by omega)]
+      omega
+    have hb2f : ∀ j, j < k → m2.β 2 (eid + 2 + j) = eid + 1 ∨
+        (eid + 2 + k ≤ m2.β 2 (eid + 2 + j) ∧ m2.β 2 (eid + 2 + j) < eid + 2 + 2 * k) := by
+      intro j hj
+      have := C14.zip_index (Q := fun p => m2.β 2 p.1 = p.2 ∧ m2.β 2 p.2 = p.1) hpz (k - 1 - j)
+        (by simp only [List.length_cons, hsh, List.length_range']; omega)
+        (by simp only [List.length_reverse, hfh, List.length_range']; omega)
+      have e2' : fh.reverse.getD (k - 1 - j) 0 = eid + 2 + j := by
+        rw [List.getD_eq_getElem?_getD,
+          List.getElem?_eq_getElem (by simp only [List.length_reverse, hfh, List.length_range']; omega), List.getElem_reverse]
+        simp only [hfh, List.length_range', List.getElem_range', Option.getD_some]
+        omega
+      rw [e2'] at this
+      rw [this.2]
+      by_cases hz : k - 1 - j = 0
+      · left; rw [hz]; simp [b2n]
+      · right
+        have : k - 1 - j = (k - 1 - j - 1) + 1 := by omega
+        rw [this, List.getD_cons_succ, hsh, rg' (by omega)]
+        omega
+    have hβ3 : ∀ a b, m3.β a b = m2.β a b := fun a b => by unfold Map.β; rw [hb3]
+    have hchain3 : B1Chain m3 eid fh := b1chain_congr hb3 fh eid hch
+    have hstart3 : m3.β 1 e.start = eid := by
+      rw [hβ3, hres.frame1 _ hstart_out (fun _ => hstart_out2)]; exact e1
+    rw [hstart3] at hmark
+    have hmemc : ∀ x, x ∈ eid :: fh → x = eid ∨ (∃ j, j < k ∧ x = eid + 2 + j) := by
+      intro x hx
+      rcases List.mem_cons.1 hx with h | h
+      · exact Or.inl h
+      · right; rw [hfh, List.mem_range'_1] at h; exact ⟨x - (eid + 2), by omega, by omega⟩
+    have hb2c : ∀ x, x ∈ eid :: fh → m3.β 2 x = eid + 1 ∨ (eid + 2 + k ≤ m3.β 2 x ∧ m3.β 2 x < eid + 2 + 2 * k) := by
+      intro x hx
+      rw [hβ3]
+      rcases hmemc x hx with rfl | ⟨j, hj, rfl⟩
+      · right; rw [hb2e]; omega
+      · exact hb2f j hj
+    obtain ⟨_, ctag, _⟩ := markBoundary_chain e.stop fh eid m3 m' _ (w2.sameTopo st3.1) hchain3
+      (by rw [hβ3, hlast]; exact e2)
+      (by intro hx; rcases hmemc _ hx with h | ⟨j, _, h⟩ <;> omega)
+      (by rw [List.nodup_cons]; refine ⟨?_, by rw [hfh]; exact List.nodup_range'⟩
+          intro hx; rw [hfh, List.mem_range'_1] at hx; omega)
+      (by intro x hx
+          refine ⟨?_, ?_⟩
+          · rw [st3.1.n, inv2.n_eq, n1]; rcases hmemc x hx with h | ⟨j, hj, h⟩ <;> omega
+          · rcases hb2c x hx with h | h <;> omega)
+      (by intro x hx y hy
+          rcases hmemc x hx with h | ⟨j, hj, h⟩ <;> rcases hb2c y hy with h' | h' <;> omega) hmark
+    refine ⟨⟨?_, ?_⟩, ?_, ?_, ?_, ?_⟩
+    · rw [hβ', hres.frame1 _ hstart_out (fun _ => hstart_out2)]; exact e1
+    · -- the chain, read on the final map
+      have : ∀ (l : List Nat) (d : Nat), B1Chain m2 d l → B1Chain m' d l := by
+        intro l
+        induction l with
+        | nil => intro _ _; trivial
+        | cons x rest ih => intro d h; exact ⟨by rw [hβ']; exact h.1, ih x h.2⟩
+      exact this fh eid hch
+    · rw [hβ', hlast]; exact e2
+    · rw [hβ']
+      obtain ⟨_, _, hp2⟩ := hres.pairs (by rw [b2n]; omega)
+      rw [hp2]
+      have hl := C14.getLastD_index sh (m1.β 2 eid)
+      rw [hl, hsh, List.length_range']
+      have : k = (k - 1) + 1 := by omega
+      rw [this, List.getD_cons_succ, rg' (by omega)]
+      omega
+    · intro j pt hj vid hvid
+      have hjk : j < k := by
+        rcases Nat.lt_or_ge j k with h | h
+        · exact h
+        · rw [List.getElem?_eq_none (by rw [← hk]; exact h)] at hj; cases hj
+      have hmemz : (eid + 2 + j, pt) ∈ fh.zip e.inter := by
+        have : (fh.zip e.inter)[j]? = some (eid + 2 + j, pt) := by
+          rw [List.getElem?_zip_eq_some]
+          exact ⟨by rw [hfh, List.getElem?_range' hjk]; simp, hj⟩
+        exact List.mem_of_getElem? this
+      have hv2 : (run (vertexId2 m.n (eid + 2 + j)) m2).1 = .ok vid := by
+        rw [← (C14.bOnly_vertexId2 m.n (eid + 2 + j)).2 m2 m' (by rw [hb', hb3])]; exact hvid
+      obtain ⟨p0, pa⟩ := hpts _ hmemz vid hv2
+      refine ⟨by rw [hatt' 0 vid (by decide)]; exact p0, fun hat => by rw [hatt' sVA vid (by decide)]; exact pa hat⟩
+    · intro x hx
+      have := ctag x hx
+      rw [hβ3, ← hβ'] at this
+      exact this
+
 /-! ## examples -/
 
 /-- one grid cell (darts 1 … 4, corners (0,0) (1,0) (1,1) (0,1)) with ten storages, no tag -/
@@ -744,5 +1317,22 @@ example : let m' := (stepFive exCell true [exEdge]).2
         some (.tm (.leaf 0))) := by decide +kernel
 example := C16_insert_edges_inv (ha := true) (edges := [exEdge]) exCell_wf exCell_notag (by decide +kernel)
   (C14.ok_of_fst (by decide +kernel))
+
+theorem exI : EInv (exCell.addFreeDarts 4).2 5 := by
+  have t := addFreeDarts_att_none sBd exCell_notag 4
+  refine ⟨by decide +kernel, fun d => Or.inl (t d), ?_, by decide, ?_⟩
+  · intro d _ _ _
+    show (exCell.addFreeDarts 4).2.att sBd d = _ ↔ (exCell.addFreeDarts 4).2.att sBd _ = _
+    rw [t, t]; simp
+  · intro d h1 h2
+    have hn : (exCell.addFreeDarts 4).2.n = 9 := by decide +kernel
+    have key : ∀ x, x < 9 → 5 ≤ x → (exCell.addFreeDarts 4).2.unused x = false ∧
+        ∀ i, i < 3 → (exCell.addFreeDarts 4).2.β i x = 0 := by decide +kernel
+    rw [hn] at h2
+    exact ⟨(key d h2 h1).1, (key d h2 h1).2, t d⟩
+
+-- every hypothesis of the shape theorem holds on the cell: 1 → 5 → 7 → 3, the point of interest at the vertex of 7
+example := C16_insertOneEdge_shape (i := 0) (ha := true) (e := exEdge) exI (by decide +kernel) (by decide +kernel)
+  (by decide +kernel) (C14.ok_of_fst (by decide +kernel))
 
 end HC.C16
